@@ -30,3 +30,119 @@ Proof.
     + split; [discriminate|]. intros (v & [<-|Hin] & Ht); [cbn [iv_a iv_b] in Ht; lia|].
       pose proof (ordered_lower b r v H3 Hin). lia.
 Qed.
+
+(* ---------- ceil division, stride, number of kept chunks ---------- *)
+Lemma cdiv_spec a b : 1 <= b -> b * (cdiv a b - 1) < a <= b * cdiv a b.
+Proof.
+  intros Hb. unfold cdiv.
+  pose proof (Z.mul_div_le (- a) b ltac:(lia)).
+  pose proof (Z.mul_succ_div_gt (- a) b ltac:(lia)). lia.
+Qed.
+
+Lemma cdiv_nonneg a b : 1 <= b -> 0 <= a -> 0 <= cdiv a b.
+Proof. intros Hb Ha. pose proof (cdiv_spec a b Hb). nia. Qed.
+
+Lemma cdiv_pos a b : 1 <= b -> 1 <= a -> 1 <= cdiv a b.
+Proof. intros Hb Ha. pose proof (cdiv_spec a b Hb). nia. Qed.
+
+Lemma stride_pos nch k : 1 <= stride nch k.
+Proof. unfold stride. lia. Qed.
+
+Theorem kept_le nch k : 0 <= nch -> 1 <= k -> cdiv nch (stride nch k) <= k.
+Proof.
+  intros Hn Hk. pose proof (stride_pos nch k) as Hs.
+  pose proof (cdiv_spec nch k Hk) as H1.
+  pose proof (cdiv_spec nch (stride nch k) Hs) as H2.
+  assert (cdiv nch k <= stride nch k) by (unfold stride; lia).
+  set (s := stride nch k) in *. set (m := cdiv nch s) in *. set (c := cdiv nch k) in *.
+  assert (nch <= k * s) by nia.
+  nia.
+Qed.
+
+(* ---------- chunks_kept ---------- *)
+Lemma skipn_two {A} (n : nat) (l : list A) : (n + 1 < length l)%nat ->
+  exists a b rest, skipn n l = a :: b :: rest /\ nth_error l n = Some a /\ nth_error l (S n) = Some b.
+Proof.
+  revert l; induction n as [|n IH]; intros l H.
+  - destruct l as [|a [|b rest]]; cbn [length] in H; try lia. exists a, b, rest. repeat split.
+  - destruct l as [|x l]; cbn [length] in H; [lia|]. destruct (IH l ltac:(lia)) as (a & b & rest & H1 & H2 & H3).
+    exists a, b, rest. cbn [skipn nth_error]. auto.
+Qed.
+
+Lemma slice_two (grid : list Z) i : 0 <= i -> i + 1 < zlen grid ->
+  exists a b, slice grid i (i + 2) = [a; b] /\
+              nth_error grid (Z.to_nat i) = Some a /\ nth_error grid (Z.to_nat (i + 1)) = Some b.
+Proof.
+  intros Hi Hl. unfold zlen in Hl.
+  destruct (skipn_two (Z.to_nat i) grid ltac:(lia)) as (a & b & rest & H1 & H2 & H3).
+  exists a, b. unfold slice. rewrite H1.
+  replace (Z.to_nat (i + 2) - Z.to_nat i)%nat with 2%nat by lia.
+  replace (Z.to_nat (i + 1)) with (S (Z.to_nat i)) by lia. repeat split; assumption.
+Qed.
+
+Lemma kept_build grid s cnt : forall j0, 0 <= j0 -> 1 <= s ->
+  (forall j, j0 <= j < j0 + Z.of_nat cnt -> j * s + 1 < zlen grid) ->
+  exists ivs, flat_map (fun i => slice grid i (i + 2)) (map (fun j => j * s) (zrange j0 cnt)) = flat ivs /\
+              KeptAt grid s j0 ivs /\ length ivs = cnt.
+Proof.
+  induction cnt as [|cnt IH]; intros j0 Hj Hs Hv.
+  - exists []. repeat split.
+  - destruct (IH (j0 + 1) ltac:(lia) Hs) as (ivs & H1 & H2 & H3); [intros j Hjj; apply Hv; lia|].
+    destruct (slice_two grid (j0 * s) ltac:(nia) (Hv j0 ltac:(lia))) as (a & b & E & Ha & Hb).
+    exists (mkiv a b :: ivs). cbn [zrange map flat_map flat KeptAt iv_a iv_b length].
+    rewrite E, H1. repeat split; auto.
+Qed.
+
+Theorem chunks_kept_spec grid k : 1 <= k -> 1 <= zlen grid ->
+  exists ivs, chunks_kept grid k = Some (flat ivs) /\
+              Kept_Stride grid k (stride (zlen grid - 1) k) ivs.
+Proof.
+  intros Hk Hg. unfold chunks_kept. replace (k =? 0) with false by lia.
+  set (nch := zlen grid - 1). set (s := stride nch k).
+  pose proof (stride_pos nch k) as Hs. fold s in Hs.
+  pose proof (cdiv_spec nch s Hs) as Hc.
+  pose proof (cdiv_nonneg nch s Hs ltac:(lia)) as Hm.
+  unfold krange.
+  destruct (kept_build grid s (Z.to_nat (cdiv nch s)) 0 ltac:(lia) Hs) as (ivs & H1 & H2 & H3).
+  { intros j Hj. assert (j * s <= (cdiv nch s - 1) * s) by nia. lia. }
+  exists ivs. split; [now rewrite H1|].
+  unfold Kept_Stride. fold nch. fold s. unfold zlen at 1 2. rewrite H3.
+  repeat split; try assumption; try lia.
+  rewrite Z2Nat.id by lia. apply kept_le; lia.
+Qed.
+
+(* ---------- sorted grid -> kept chunks ordered ---------- *)
+Lemma sorted_head_all h r y : sortedZ (h :: r) -> In y r -> h <= y.
+Proof.
+  revert h; induction r as [|z r IH]; intros h Hs Hin; [contradiction|].
+  inversion Hs; subst. destruct Hin as [->|Hin]; [lia|]. specialize (IH z H3 Hin). lia.
+Qed.
+
+Lemma sorted_nth_le l : sortedZ l -> forall i i' x y,
+  nth_error l i = Some x -> nth_error l i' = Some y -> (i <= i')%nat -> x <= y.
+Proof.
+  induction l as [|h r IH]; intros Hs i i' x y Hx Hy Hle; [destruct i; discriminate|].
+  destruct i as [|i], i' as [|i']; cbn [nth_error] in *; try lia.
+  - injection Hx as ->. injection Hy as ->. lia.
+  - injection Hx as ->. apply (sorted_head_all _ r); [assumption|]. now apply nth_error_In in Hy.
+  - apply (IH (sorted_tail _ _ Hs) i i'); auto. lia.
+Qed.
+
+Lemma keptat_ordered grid s : sortedZ grid -> 1 <= s -> forall ivs j lo i0,
+  0 <= j -> KeptAt grid s j ivs -> nth_error grid i0 = Some lo -> Z.of_nat i0 <= j * s ->
+  ordered lo ivs.
+Proof.
+  intros Hg Hs. induction ivs as [|v r IH]; intros j lo i0 Hj Hk Hlo Hi; [exact I|].
+  cbn [KeptAt] in Hk. destruct Hk as (Ha & Hb & Hr). cbn [ordered]. split; [|split].
+  - apply (sorted_nth_le grid Hg i0 (Z.to_nat (j * s))); auto. lia.
+  - apply (sorted_nth_le grid Hg (Z.to_nat (j * s)) (Z.to_nat (j * s + 1))); auto. lia.
+  - apply (IH (j + 1) (iv_b v) (Z.to_nat (j * s + 1))); auto; try lia; try nia.
+Qed.
+
+Lemma kept_ordered grid k s ivs : sortedZ grid -> Kept_Stride grid k s ivs -> exists lo, ordered lo ivs.
+Proof.
+  intros Hg (Hs & Hk & _). destruct ivs as [|v r]; [exists 0; exact I|].
+  exists (iv_a v). destruct Hk as (Ha & Hb & Hr).
+  apply (keptat_ordered grid s Hg Hs (v :: r) 0 (iv_a v) (Z.to_nat (0 * s))); try lia; auto.
+  cbn [KeptAt]. auto.
+Qed.
